@@ -15,7 +15,7 @@ def _marked(base):
 # the injected fault comes as several exception classes: user callbacks fail with all sorts of exceptions, and some classes have a
 # meaning of their own for Python's machinery (StopIteration ends iteration protocols, KeyError/TypeError are caught by lookups)
 FAULT_CLASSES = [Injected, _marked(StopIteration), _marked(KeyError), _marked(ZeroDivisionError), _marked(ValueError),
-                 _marked(AttributeError), _marked(IndexError)]
+                 _marked(AttributeError), _marked(IndexError), _marked(KeyboardInterrupt), _marked(GeneratorExit)]
 Injected._ixv_injected = True
 
 
@@ -136,6 +136,9 @@ class Model:
             out = dict(sorted(out.items(), key=lambda kv: (-kv[1], repr(kv[0]))))
         return out
 
+    def __deepcopy__(self, memo):
+        return self        # like a plain function, the user's model is not duplicated when an explainer is deep-copied
+
     def reads(self):
         """Indices of the features the model depends on."""
         r = set()
@@ -156,7 +159,19 @@ class Model:
         if isinstance(x, dict):
             if self.faults is not None:
                 self.faults.tick('model')
-            out = self.pure(x)
+            if self.spec.get('memo'):
+                # a memoising / lookup-table model: equal inputs get THE SAME prediction object back (a deterministic model may do that)
+                key = tuple(sorted(((repr(k), repr(v)) for k, v in x.items())))
+                cache = self.__dict__.setdefault('_memo', {})
+                if key not in cache:
+                    cache[key] = self.pure(x)
+                out = cache[key]
+                fresh = self.pure(x)
+                if out != fresh:
+                    # the library modified a prediction it was given: make that visible as a plainly wrong model output
+                    self.memo_corrupted = True
+            else:
+                out = self.pure(x)
             if self.spec.get('array_out') and self.mode == 'float':
                 # size-one NumPy arrays as output values (an un-indexed predict()): numeric, but MUTABLE objects
                 import numpy as _np
@@ -165,6 +180,11 @@ class Model:
                 self.calls.append((dict(x), {k: id(v) for k, v in x.items()}, out))
             if self.log is not None:
                 self.log.add('model', dict(x), out)
+            if getattr(self, 'mutate_input', False):
+                # a model function that works in place on the dict it is given (renames a key), as some pipelines do
+                first = next(iter(x), None)
+                if first is not None:
+                    x['__renamed__'] = x.pop(first)
             return out
         rows = list(x)
         if self.faults is not None:
@@ -223,6 +243,9 @@ class Loss:
 
     def nonlinear(self):
         return self.spec['kind'] in ('sq', 'abs') or (self.spec['kind'] == 'poly' and self.spec['c'][2] != 0)
+
+    def __deepcopy__(self, memo):
+        return self        # user callbacks are shared, not copied
 
     def __call__(self, y_true, y_pred, /):
         if self.faults is not None:
